@@ -66,6 +66,7 @@ type Case struct {
 	RowsJ   []RowJ   `json:"rowsj,omitempty"`   // rows: the batch, field by field (for the model)
 	Seed    uint64   `json:"seed,omitempty"`    // rows/record: generator seed of the case
 	CMode   int      `json:"cmode,omitempty"`   // file: chunk-meta-compress-mode the file was written under
+	MF      *MFJ     `json:"mf,omitempty"`      // mfile: expected chunk ranges, real trailer range and meta-index entries
 	PA      *PAJ     `json:"pa,omitempty"`      // preagg: statistics value and, per mode, the real bytes and what the reader returned
 	seed    uint64
 }
@@ -959,6 +960,8 @@ func runCase(c *Case) {
 		runFile(c)
 	case "preagg":
 		runPreAgg(c)
+	case "mfile":
+		runMFile(c)
 	}
 	gen.Emit(c)
 }
@@ -968,12 +971,16 @@ func main() {
 		printConsts()
 		return
 	}
-	if len(os.Args) > 2 && os.Args[1] == "preagg" { // statistics blocks only (volume runs)
+	if len(os.Args) > 2 && (os.Args[1] == "preagg" || os.Args[1] == "mfile") { // one kind only (volume runs)
 		n, _ := strconv.Atoi(os.Args[2])
 		r := gen.FromEnv(7)
 		for i := 0; i < n; i++ {
 			c := Case{}
-			genPreAgg(r, &c)
+			if os.Args[1] == "preagg" {
+				genPreAgg(r, &c)
+			} else {
+				genMFile(r, &c)
+			}
 			runCase(&c)
 		}
 		fmt.Println(`{"done":true}`)
@@ -1008,7 +1015,7 @@ func main() {
 					os.Exit(3)
 				}
 				c := Case{K: in.K, Vals: in.Vals, Strs: in.Strs, Algo: in.Algo, Typ: in.Typ, Payload: in.Payload, Lim: in.Lim, Cols: in.Cols, Series: in.Series,
-					Seed: in.Seed, seed: in.Seed, Shape: "corpus", Src: filepath.Base(f), CMode: in.CMode, PA: in.PA}
+					Seed: in.Seed, seed: in.Seed, Shape: "corpus", Src: filepath.Base(f), CMode: in.CMode, PA: in.PA, MF: in.MF}
 				if len(in.Rep) == 2 {
 					c.Vals = make([]uint64, in.Rep[1])
 					for i := range c.Vals {
@@ -1061,6 +1068,12 @@ func main() {
 	for i := 0; i < n/3; i++ {
 		c := Case{}
 		genPreAgg(r, &c)
+		runCase(&c)
+	}
+	// 4. multi-series files: trailer / meta-index ranges and row lookups through the reopened file
+	for i := 0; i < n/32; i++ {
+		c := Case{}
+		genMFile(r, &c)
 		runCase(&c)
 	}
 	fmt.Println(`{"done":true}`)
